@@ -12,6 +12,7 @@ import (
 	"errors"
 	"fmt"
 	"io"
+	"math/rand/v2"
 	"log/slog"
 	"net"
 	"net/netip"
@@ -65,6 +66,9 @@ type upstream struct {
 
 	// lastProbe is when the last health probe arrived.
 	lastProbe time.Time
+
+	// seg cuts TCP replies into segments (private to this upstream).
+	seg *rand.Rand
 }
 
 func (u *upstream) String() string {
@@ -293,7 +297,22 @@ func (u *upstream) serve(n *simnet.Net) (stop func()) {
 						out := make([]byte, 2+len(r))
 						binary.BigEndian.PutUint16(out, uint16(len(r)))
 						copy(out[2:], r)
-						_, _ = c.Write(out)
+						// The reply arrives in one to three segments; the
+						// first may end inside the length prefix.
+						for len(out) > 0 {
+							k := len(out)
+							switch u.seg.IntN(4) {
+							case 1:
+								k = 1
+							case 2:
+								k = 1 + u.seg.IntN(len(out))
+							}
+							_, _ = c.Write(out[:k])
+							out = out[k:]
+							if len(out) > 0 {
+								time.Sleep(time.Millisecond)
+							}
+						}
 					}
 				}
 			}()
@@ -333,12 +352,12 @@ func run(s *kernel.Sim, prop, cfg string) {
 	var mains, fbs, all []*upstream
 	var mainConf, fbConf []*forward.UpstreamPlainConfig
 	for i := 0; i < nMain; i++ {
-		u := &upstream{idx: i, main: true, addr: netip.MustParseAddrPort(fmt.Sprintf("198.51.100.%d:53", 10+i)), state: "up"}
+		u := &upstream{idx: i, main: true, addr: netip.MustParseAddrPort(fmt.Sprintf("198.51.100.%d:53", 10+i)), state: "up", seg: rand.New(rand.NewPCG(uint64(t.Choose(1<<30, "upstream-seed")), uint64(i)))}
 		mains = append(mains, u)
 		mainConf = append(mainConf, &forward.UpstreamPlainConfig{Network: forward.NetworkAny, Address: u.addr, Timeout: time.Second})
 	}
 	for i := 0; i < nFB; i++ {
-		u := &upstream{idx: i, addr: netip.MustParseAddrPort(fmt.Sprintf("198.51.100.%d:53", 50+i)), state: "up"}
+		u := &upstream{idx: i, addr: netip.MustParseAddrPort(fmt.Sprintf("198.51.100.%d:53", 50+i)), state: "up", seg: rand.New(rand.NewPCG(uint64(t.Choose(1<<30, "upstream-seed")), uint64(i)))}
 		fbs = append(fbs, u)
 		fbConf = append(fbConf, &forward.UpstreamPlainConfig{Network: forward.NetworkAny, Address: u.addr, Timeout: time.Second})
 	}
